@@ -1570,10 +1570,11 @@ func (p *Parser) parseSwitchStatement(scriptName string) (*ast.SwitchStatement, 
 		operandToken.Literal = strings.Join(parts, " ")
 		statement.Operand = operandToken
 	} else {
-		statement.Operand = token.Token{
-			Type:    token.IDENT,
-			Literal: *autoVarOperand,
-		}
+		// The operand takes the source position of the auto-var command.
+		operandToken := preambleStatement.Token
+		operandToken.Type = token.IDENT
+		operandToken.Literal = *autoVarOperand
+		statement.Operand = operandToken
 		if err := p.expectPeek(token.RPAREN); err != nil {
 			return nil, nil, nil, NewParseError(originalToken, "missing closing parenthesis of switch statement value")
 		}
@@ -1866,10 +1867,11 @@ func (p *Parser) parseLeafBooleanExpression(scriptName string) (*ast.OperatorExp
 			return nil, nil, err
 		}
 		operatorExpression.Type = token.VAR
-		operatorExpression.Operand = token.Token{
-			Type:    token.IDENT,
-			Literal: *autoVarOperand,
-		}
+		// The operand takes the source position of the auto-var command.
+		operandToken := preambleStatement.Token
+		operandToken.Type = token.IDENT
+		operandToken.Literal = *autoVarOperand
+		operatorExpression.Operand = operandToken
 		operatorExpression.PreambleStatement = preambleStatement
 		resultImpData.add(autoVarImpData)
 	}
